@@ -1,1 +1,318 @@
-//! C09 harnesses (Engine K)
+//! C09 — tick index ↔ sqrt-price conversions (Engine K part).
+//!
+//! The forward direction (strict monotonicity on ALL ticks, endpoints) is decided by Engine M (`props/c09.py`).
+//! Here, on the REAL functions (no stubs), bit-precisely:
+//!   §1 inverse on blocks of consecutive ticks: tick(p(t)) = t, tick(p(t) − 1) = t − 1, tick(p(t) + 1) = t
+//!   §2 per-step ratio p(t+1)/p(t) vs √1.0001 to within 2^-32, on blocks
+//!   §3 endpoints (concrete)
+//!   §4 twin
+//! The runner parses `// @verif` + `#[kani::proof]` + `fn name` textually, so the per-block harnesses are written
+//! out as one-line functions over the generic bodies `inverse_block` / `ratio_block` (a macro would hide them).
+use ::whirlpool::math::tick_math::{
+    sqrt_price_from_tick_index, tick_index_from_sqrt_price, MAX_SQRT_PRICE_X64, MIN_SQRT_PRICE_X64,
+};
+use ::whirlpool::math::u256_math::{mul_u256, U256Muldiv};
+use ::whirlpool::state::{MAX_TICK_INDEX, MIN_TICK_INDEX};
+
+/// unwind bound: `tick_index_from_sqrt_price` iterates BIT_PRECISION = 14 times; shift_right(96) word loop once
+const _UNWIND_NOTE: u32 = 16;
+
+// ---------------------------------------------------------------------------------------------
+// §1 inverse on blocks
+
+/// for t symbolic in [base, base + len) ∩ [MIN_TICK_INDEX, MAX_TICK_INDEX], p = sqrt_price_from_tick_index(t) and a
+/// symbolic selector `which` ∈ {0, 1, 2} (one inverse call per execution keeps the circuit a third of the size;
+/// the solver still decides all three cases for every tick of the block):
+///   which = 1:                        tick_index_from_sqrt_price(p)     == t
+///   which = 0 (t > MIN_TICK_INDEX):   tick_index_from_sqrt_price(p − 1) == t − 1
+///   which = 2 (t < MAX_TICK_INDEX):   tick_index_from_sqrt_price(p + 1) == t     (p + 1 stays within the bounds)
+/// plus MIN_SQRT_PRICE_X64 ≤ p ≤ MAX_SQRT_PRICE_X64 and the absence of arithmetic-overflow / unwrap panics in both
+/// functions (Kani's built-in checks).
+fn inverse_block(base: i32, len: i32) {
+    let t: i32 = kani::any();
+    let which: u8 = kani::any();
+    kani::assume(t >= base && t < base + len);
+    kani::assume(t >= MIN_TICK_INDEX && t <= MAX_TICK_INDEX);
+    kani::assume(which < 3);
+    kani::assume(which != 0 || t > MIN_TICK_INDEX);
+    kani::assume(which != 2 || t < MAX_TICK_INDEX);
+    let p = sqrt_price_from_tick_index(t);
+    assert!(p >= MIN_SQRT_PRICE_X64 && p <= MAX_SQRT_PRICE_X64, "price within the published bounds");
+    let price = p - 1 + which as u128;
+    let want = if which == 0 { t - 1 } else { t };
+    let got = tick_index_from_sqrt_price(&price);
+    assert!(got == want, "tick(p(t)) == t, tick(p(t) - 1) == t - 1, tick(p(t) + 1) == t");
+    kani::cover!((t == base || t == MIN_TICK_INDEX) && which == 1, "first tick of the block, at the tick price");
+    kani::cover!((t == base + len - 1 || t == MAX_TICK_INDEX) && which == 0, "last tick of the block, one unit below");
+    kani::cover!(which == 2, "one unit above a tick price");
+}
+
+/// inverse on the 16 ticks [MIN_TICK_INDEX, MIN_TICK_INDEX + 16)
+// @verif prop=C09 tier=quick timeout=300
+#[kani::proof]
+#[kani::unwind(16)]
+fn c09_inv_q_min() {
+    inverse_block(MIN_TICK_INDEX, 16)
+}
+
+/// inverse on the 16 ticks [-8, 8) (both exponentiation routines, seam at 0)
+// @verif prop=C09 tier=quick timeout=300
+#[kani::proof]
+#[kani::unwind(16)]
+fn c09_inv_q_zero() {
+    inverse_block(-8, 16)
+}
+
+/// inverse on the 16 ticks [MAX_TICK_INDEX − 15, MAX_TICK_INDEX]
+// @verif prop=C09 tier=quick timeout=300
+#[kani::proof]
+#[kani::unwind(16)]
+fn c09_inv_q_max() {
+    inverse_block(MAX_TICK_INDEX - 15, 16)
+}
+
+/// inverse on the 64 ticks [MIN_TICK_INDEX, MIN_TICK_INDEX + 64)
+// @verif prop=C09 tier=thorough timeout=900
+#[kani::proof]
+#[kani::unwind(16)]
+fn c09_inv_t_min() {
+    inverse_block(MIN_TICK_INDEX, 64)
+}
+
+/// inverse on the 64 ticks [-32, 32)
+// @verif prop=C09 tier=thorough timeout=900
+#[kani::proof]
+#[kani::unwind(16)]
+fn c09_inv_t_zero() {
+    inverse_block(-32, 64)
+}
+
+/// inverse on the 64 ticks [MAX_TICK_INDEX − 63, MAX_TICK_INDEX]
+// @verif prop=C09 tier=thorough timeout=900
+#[kani::proof]
+#[kani::unwind(16)]
+fn c09_inv_t_max() {
+    inverse_block(MAX_TICK_INDEX - 63, 64)
+}
+
+/// inverse on the 64 ticks [2^4 − 32, 2^4 + 32) (carry into bit 4 of the tick)
+// @verif prop=C09 tier=thorough timeout=900
+#[kani::proof]
+#[kani::unwind(16)]
+fn c09_inv_t_p2_4() {
+    inverse_block(-16, 64)
+}
+
+/// inverse on the 64 ticks [−2^4 − 32, −2^4 + 32)
+// @verif prop=C09 tier=thorough timeout=900
+#[kani::proof]
+#[kani::unwind(16)]
+fn c09_inv_t_m2_4() {
+    inverse_block(-48, 64)
+}
+
+/// inverse on the 64 ticks [2^8 − 32, 2^8 + 32) (carry into bit 8 of the tick)
+// @verif prop=C09 tier=thorough timeout=900
+#[kani::proof]
+#[kani::unwind(16)]
+fn c09_inv_t_p2_8() {
+    inverse_block(224, 64)
+}
+
+/// inverse on the 64 ticks [−2^8 − 32, −2^8 + 32)
+// @verif prop=C09 tier=thorough timeout=900
+#[kani::proof]
+#[kani::unwind(16)]
+fn c09_inv_t_m2_8() {
+    inverse_block(-288, 64)
+}
+
+/// inverse on the 64 ticks [2^12 − 32, 2^12 + 32) (carry into bit 12 of the tick)
+// @verif prop=C09 tier=thorough timeout=900
+#[kani::proof]
+#[kani::unwind(16)]
+fn c09_inv_t_p2_12() {
+    inverse_block(4064, 64)
+}
+
+/// inverse on the 64 ticks [−2^12 − 32, −2^12 + 32)
+// @verif prop=C09 tier=thorough timeout=900
+#[kani::proof]
+#[kani::unwind(16)]
+fn c09_inv_t_m2_12() {
+    inverse_block(-4128, 64)
+}
+
+/// inverse on the 64 ticks [2^16 − 32, 2^16 + 32) (carry into bit 16 of the tick)
+// @verif prop=C09 tier=thorough timeout=900
+#[kani::proof]
+#[kani::unwind(16)]
+fn c09_inv_t_p2_16() {
+    inverse_block(65504, 64)
+}
+
+/// inverse on the 64 ticks [−2^16 − 32, −2^16 + 32)
+// @verif prop=C09 tier=thorough timeout=900
+#[kani::proof]
+#[kani::unwind(16)]
+fn c09_inv_t_m2_16() {
+    inverse_block(-65568, 64)
+}
+
+/// inverse on the 64 ticks [2^18 − 32, 2^18 + 32) (carry into bit 18 of the tick)
+// @verif prop=C09 tier=thorough timeout=900
+#[kani::proof]
+#[kani::unwind(16)]
+fn c09_inv_t_p2_18() {
+    inverse_block(262112, 64)
+}
+
+/// inverse on the 64 ticks [−2^18 − 32, −2^18 + 32)
+// @verif prop=C09 tier=thorough timeout=900
+#[kani::proof]
+#[kani::unwind(16)]
+fn c09_inv_t_m2_18() {
+    inverse_block(-262176, 64)
+}
+
+// ---------------------------------------------------------------------------------------------
+// §2 per-step ratio
+
+/// √1.0001 in Q96 (= round(√1.0001 · 2^96)), the first constant of get_sqrt_price_positive_tick
+const SQRT_10001_X96: u128 = 79232123823359799118286999567;
+
+/// for t symbolic in [base, base + len) ∩ [MIN_TICK_INDEX, MAX_TICK_INDEX), p0 = p(t), p1 = p(t + 1):
+///   | p1·2^96 − p0·K | ≤ p0·2^64      i.e.  | p1/p0 − K/2^96 | ≤ 2^-32,   K = SQRT_10001_X96
+/// exact 256-bit integer arithmetic with the crate's mul_u256 / shift_left / sub / lte (contracts C02 K1–K9)
+fn ratio_block(base: i32, len: i32) {
+    let t: i32 = kani::any();
+    kani::assume(t >= base && t < base + len);
+    kani::assume(t >= MIN_TICK_INDEX && t < MAX_TICK_INDEX);
+    let p0 = sqrt_price_from_tick_index(t);
+    let p1 = sqrt_price_from_tick_index(t + 1);
+    let lhs = U256Muldiv::new(0, p1).shift_left(96); // p1 < 2^96: no bits lost
+    let rhs = mul_u256(p0, SQRT_10001_X96);
+    let diff = if lhs.gte(rhs) { lhs.sub(rhs) } else { rhs.sub(lhs) };
+    let bound = U256Muldiv::new(0, p0).shift_left(64);
+    assert!(p1 >> 96 == 0);
+    assert!(diff.lte(bound), "|p(t+1)/p(t) - sqrt(1.0001)| <= 2^-32");
+    kani::cover!(t == base, "first tick of the block");
+    kani::cover!(lhs.lt(rhs), "ratio below sqrt(1.0001)");
+}
+
+/// per-step ratio on the 16 steps starting at [MIN_TICK_INDEX, MIN_TICK_INDEX + 16) (smallest prices: largest relative rounding)
+// @verif prop=C09 tier=quick timeout=300
+#[kani::proof]
+#[kani::unwind(16)]
+fn c09_ratio_q_min() {
+    ratio_block(MIN_TICK_INDEX, 16)
+}
+
+/// per-step ratio on the 16 steps starting at [-8, 8)
+// @verif prop=C09 tier=quick timeout=300
+#[kani::proof]
+#[kani::unwind(16)]
+fn c09_ratio_q_zero() {
+    ratio_block(-8, 16)
+}
+
+/// per-step ratio on the 16 steps starting at [MAX_TICK_INDEX − 16, MAX_TICK_INDEX)
+// @verif prop=C09 tier=quick timeout=300
+#[kani::proof]
+#[kani::unwind(16)]
+fn c09_ratio_q_max() {
+    ratio_block(MAX_TICK_INDEX - 16, 16)
+}
+
+/// per-step ratio on the 64 steps starting at [MIN_TICK_INDEX, MIN_TICK_INDEX + 64)
+// @verif prop=C09 tier=thorough timeout=900
+#[kani::proof]
+#[kani::unwind(16)]
+fn c09_ratio_t_min() {
+    ratio_block(MIN_TICK_INDEX, 64)
+}
+
+/// per-step ratio on the 64 steps starting at [-32, 32)
+// @verif prop=C09 tier=thorough timeout=900
+#[kani::proof]
+#[kani::unwind(16)]
+fn c09_ratio_t_zero() {
+    ratio_block(-32, 64)
+}
+
+/// per-step ratio on the 64 steps starting at [MAX_TICK_INDEX − 64, MAX_TICK_INDEX)
+// @verif prop=C09 tier=thorough timeout=900
+#[kani::proof]
+#[kani::unwind(16)]
+fn c09_ratio_t_max() {
+    ratio_block(MAX_TICK_INDEX - 64, 64)
+}
+
+/// per-step ratio on the 64 steps starting at [2^16 − 32, 2^16 + 32)
+// @verif prop=C09 tier=thorough timeout=900
+#[kani::proof]
+#[kani::unwind(16)]
+fn c09_ratio_t_p2_16() {
+    ratio_block(65536 - 32, 64)
+}
+
+/// per-step ratio on the 64 steps starting at [−2^16 − 32, −2^16 + 32)
+// @verif prop=C09 tier=thorough timeout=900
+#[kani::proof]
+#[kani::unwind(16)]
+fn c09_ratio_t_m2_16() {
+    ratio_block(-65536 - 32, 64)
+}
+
+/// per-step ratio on the 64 steps starting at [2^18 − 32, 2^18 + 32)
+// @verif prop=C09 tier=thorough timeout=900
+#[kani::proof]
+#[kani::unwind(16)]
+fn c09_ratio_t_p2_18() {
+    ratio_block(262144 - 32, 64)
+}
+
+/// per-step ratio on the 64 steps starting at [−2^18 − 32, −2^18 + 32)
+// @verif prop=C09 tier=thorough timeout=900
+#[kani::proof]
+#[kani::unwind(16)]
+fn c09_ratio_t_m2_18() {
+    ratio_block(-262144 - 32, 64)
+}
+
+// ---------------------------------------------------------------------------------------------
+// §3 endpoints
+
+/// p(MIN_TICK_INDEX) = MIN_SQRT_PRICE_X64, p(MAX_TICK_INDEX) = MAX_SQRT_PRICE_X64 and the inverse at both published
+/// bounds (concrete inputs; the only symbolic input selects the endpoint)
+// @verif prop=C09 tier=quick timeout=300
+#[kani::proof]
+#[kani::unwind(16)]
+fn c09_endpoints() {
+    let upper: bool = kani::any();
+    if upper {
+        assert!(sqrt_price_from_tick_index(MAX_TICK_INDEX) == MAX_SQRT_PRICE_X64);
+        assert!(tick_index_from_sqrt_price(&MAX_SQRT_PRICE_X64) == MAX_TICK_INDEX);
+    } else {
+        assert!(sqrt_price_from_tick_index(MIN_TICK_INDEX) == MIN_SQRT_PRICE_X64);
+        assert!(tick_index_from_sqrt_price(&MIN_SQRT_PRICE_X64) == MIN_TICK_INDEX);
+    }
+    kani::cover!(upper, "upper endpoint");
+    kani::cover!(!upper, "lower endpoint");
+}
+
+// ---------------------------------------------------------------------------------------------
+// §4 twin
+
+/// vacuity twin: must FAIL (one unit below a tick's price belongs to the previous tick)
+// @verif prop=C09 tier=quick timeout=300 twin
+#[kani::proof]
+#[kani::unwind(16)]
+fn c09_twin_must_fail() {
+    let t: i32 = kani::any();
+    kani::assume(t >= 1 && t <= 4);
+    let p = sqrt_price_from_tick_index(t);
+    let below = tick_index_from_sqrt_price(&(p - 1));
+    assert!(below == t, "twin: tick(p(t) - 1) is t - 1, not t");
+}
+
